@@ -102,9 +102,21 @@ def run_cmd(t, w, argv, env=None):
     return w.git(*argv, env=env)
 
 
-def battery(t, w, label, persistent_corruption=False):
+def notes_snapshot(w):
+    nr = N.NotesReader(w)
+    return {obj: nr.blob(ents[0][0]) for obj, ents in nr.mapping().items()}
+
+
+def battery(t, w, label, persistent_corruption=False, pre_notes=None):
     """After the fault: later commands still work, notes stay readable, no attribution is invented."""
     probs = []
+    if pre_notes is not None:
+        now = notes_snapshot(w)
+        for obj, text in pre_notes.items():
+            if obj not in now:
+                probs.append("existing note of %s disappeared" % obj[:12])
+            elif now[obj] != text:
+                probs.append("existing note of %s was altered" % obj[:12])
     for k in ("GITSHIM_FAIL_AT", "GITSHIM_MODE", "GIT_AI_VERIF_FAIL_IO_AT"):
         w.env_base.pop(k, None)
     # an interrupted operation may legitimately be in progress in both worlds; finish it the same way git users would
@@ -212,6 +224,7 @@ def run_case(case):
         argv = build_state(t, cls)
         t.A.ga("blame", "--json", t.files[0])   # make sure lazily created state exists before copying
         pre_state = t.state(t.A)
+        pre_notes = notes_snapshot(t.A)
         # ---- recording run
         rec = clone_pair(t)
         try:
@@ -312,7 +325,7 @@ def run_case(case):
                         os.chmod(os.path.join(t2.A.repo, ".git", "ai", k), stat.S_IRUSR | stat.S_IWUSR)
                     except OSError:
                         pass
-                probs = battery(t2, t2.A, what, persistent_corruption=(kind == "corrupt"))
+                probs = battery(t2, t2.A, what, persistent_corruption=(kind == "corrupt"), pre_notes=pre_notes)
                 stats["battery_commit_refused_on_persistent_corruption"] = stats.get("battery_commit_refused_on_persistent_corruption", 0) + t2.stats.get("battery_commit_refused_on_persistent_corruption", 0)
                 stats["battery_runs"] += 1
                 for pr in probs:
